@@ -21,10 +21,12 @@ EXCLUDE = {
     "XONSH_TRACE_SUBPROC", "XONSH_SUBPROC_TRACE", "XONSH_DEBUG", "PWD", "OLDPWD", "HOME", "XONSH_ENCODING", "XONSH_ENCODING_ERRORS", "XONSH_STORE_STDIN",
     "XONSH_SUBPROC_OUTPUT_FORMAT", "AUTO_CD", "XONSH_COMMANDS_CACHE_READ_DIR_ONCE", "ENABLE_COMMANDS_CACHE", "COMMANDS_CACHE_SAVE_INTERMEDIATE",
     "XONSH_TRACEBACK_LOGFILE", "XONSH_STDERR_PREFIX", "XONSH_STDERR_POSTFIX", "FOREIGN_ALIASES_SUPPRESS_SKIP_MESSAGE", "XONSH_ENV_INHERITED",
+    "XONSH_COLOR_STYLE",  # configuration OF the $LS_COLORS conversion (colour name <-> escape code table); arbitrary strings are not style names
 }
 STRS = ("plain", "with space", "ünï©ödé 中文 \U0001d11e", "a=b;c", "quote'\"s", "tab\there", "", "  padded  ", "new\nline", "$NOT_EXPANDED ~tilde *glob", "\\back\\slash")
 PATHS = ("/usr/bin", "/opt/my tools/bin", "relative/dir", "/ünï/中", ".", "/a//b/", "/x y/~z", "")
 HC = ("ignoredups", "ignoreerr", "ignorespace", "erasedups")
+LSC = {"di": ["BOLD_BLUE"], "ex": ["BOLD_GREEN"], "*.tar": ["BOLD_RED"], "ln": ["BOLD_CYAN"], "*.gz": ["RED", "BACKGROUND_BLACK"], "fi": ["RESET"], "so": ["PURPLE"]}
 
 
 class C10(Engine):
@@ -118,6 +120,8 @@ class C10(Engine):
             return [rng.choice((20.0, 33.3, float("inf"))), rng.choice(("c", "%"))]
         if fam == "shlvl":
             return rng.choice((0, 1, 5, 999))
+        if fam == "lscolors":
+            return {k: list(LSC[k]) for k in sorted(rng.sample(sorted(LSC), rng.choice((0, 1, 3, 5))))}
         raise ValueError(fam)
 
     def gen_case(self, rng, tier, seed):
@@ -130,12 +134,18 @@ class C10(Engine):
         pool.append([rng.choice(("MY_DATA_DIRS", "X_DIRS")), "env_path", "pattern"])
         pool.append([rng.choice(("FOO", "BAR_baz", "lower_case")), "str", "untyped"])
         pool.append([rng.choice(("REG_FLAG", "REG_NUM")), rng.choice(("bool", "int", "float", "env_path", "str")), "register"])
+        if rng.random() < 0.45:
+            pool.append(["LS_COLORS", "lscolors", "registered"])  # a mapping value with a string cache of its own
         nops = rng.randint(4, 40 if tier == "thorough" else 28)
         ops = []
         depth = 0
         for _ in range(nops):
             kind = rng.choices(("set", "setstr", "del", "inplace", "hold", "held_edit", "enter", "exit", "launch", "launch_kv", "launch_alias", "detype", "read", "toggle_os", "launch_helper", "reassign_held"), (10, 3, 3, 5, 2, 3, 3, 3, 7, 2, 2, 4, 3, 0.7, 4, 1.5))[0]
             var = rng.choice(pool)
+            if pool[-1][1] == "lscolors" and rng.random() < 0.12:
+                k = rng.choice(sorted(LSC))
+                ops.append(["lsc_edit", rng.choice(("set", "set", "del", "pop", "clear")), k, rng.choice(list(LSC.values()))])
+                continue
             if kind == "hold" and rng.random() < 0.6:
                 # the sequence the statement names: keep a reference, let the cache fill, edit through the reference, launch
                 cands = [v for v in pool if v[1] in ("env_path", "hcset")]
@@ -213,7 +223,7 @@ class C10(Engine):
         ctx = procworld.RunCtx(case["seed"], case["knobs"], tape, emit)
         XSH = ctx.XSH
         env = XSH.env
-        from xonsh.environ import DELETE_VAR, Env
+        from xonsh.environ import DELETE_VAR, Env, LsColors
 
         env["XONSH_SUBPROC_RAISE_ERROR"] = False
         ctx.add_stub("envcmd")
@@ -252,6 +262,8 @@ class C10(Engine):
                 return tuple(val)
             if fam == "env_path":
                 return list(val)
+            if fam == "lscolors":
+                return {k: tuple(v) for k, v in val.items()}
             return val
 
         def effective():
@@ -261,6 +273,9 @@ class C10(Engine):
             return eff
 
         def expect_str(name, val):
+            if fam_of.get(name) == "lscolors":
+                # the string form of a FRESH mapping object holding these entries (no cache of its own yet)
+                return LsColors({k: tuple(v) for k, v in val.items()}).detype()
             det = env.get_detyper(name)
             if det is None:
                 return None
@@ -367,7 +382,7 @@ class C10(Engine):
                         viol("roundtrip", f"${name} missing in the nested environment although the child received it")
                         return
                     fam = fam_of[name]
-                    b2 = sorted(back) if fam == "hcset" else list(back) if fam in ("env_path", "histtuple", "dyncwd") else back
+                    b2 = sorted(back) if fam == "hcset" else list(back) if fam in ("env_path", "histtuple", "dyncwd") else {k: list(v) for k, v in back.items()} if fam == "lscolors" else back
                     v2 = sorted(val) if fam == "hcset" else list(val) if fam in ("env_path", "histtuple", "dyncwd") else val
                     if fam == "env_path":
                         b2 = [str(x) for x in b2]
@@ -379,7 +394,7 @@ class C10(Engine):
         for name, fam, how in case["pool"]:
             if name in env._d:
                 v0 = env._d[name]
-                shadow[name] = sorted(v0) if fam == "hcset" else [str(x) for x in v0] if fam == "env_path" else list(v0) if fam in ("histtuple", "dyncwd") else v0
+                shadow[name] = sorted(v0) if fam == "hcset" else [str(x) for x in v0] if fam == "env_path" else list(v0) if fam in ("histtuple", "dyncwd") else {k: list(v) for k, v in v0.items()} if fam == "lscolors" else v0
         ctx.partial = {"summary": {"ops": len(case["ops"])}, "abort_sig": {"where": "env"}}
         ctx.start()
         done = []
@@ -522,6 +537,44 @@ class C10(Engine):
                     child = launch("main")
                     if child is not None:
                         judge(child, "main")
+                elif kind == "lsc_edit":
+                    _, how_, k_, cols = op
+                    name = "LS_COLORS"
+                    eff = effective()
+                    cur = eff.get(name, "__UNSET__")
+                    if not isinstance(cur, dict):
+                        continue
+                    pending_held.clear()
+                    touched.add(name)
+                    ref = env[name]
+                    cur = {a: list(b) for a, b in cur.items()}
+                    try:
+                        if how_ == "set":
+                            ref[k_] = tuple(cols)
+                            cur[k_] = list(cols)
+                        elif how_ == "del":
+                            if k_ in cur:
+                                del ref[k_]
+                                del cur[k_]
+                        elif how_ == "pop":
+                            ref.pop(k_, None)
+                            cur.pop(k_, None)
+                        else:
+                            ref.clear()
+                            cur = {}
+                    except Exception as e:  # noqa: BLE001
+                        viol("no.exception", f"$LS_COLORS {how_} {k_!r} raised {type(e).__name__}: {e}", exc=type(e).__name__)
+                        break
+                    probes["mapping_inplace_edit"] = probes.get("mapping_inplace_edit", 0) + 1
+                    placed = False
+                    for sc in reversed(scopes):
+                        if name in sc:
+                            sc[name] = cur
+                            placed = True
+                            break
+                    if not placed:
+                        shadow[name] = cur
+                    mutations[0] += 1
                 elif kind == "reassign_held":
                     name = op[1]
                     ref = held.get(name)
